@@ -2679,6 +2679,10 @@ func getVarDependencies(nod *node, sc *scope) (deps []*node) {
 				// All blank identifiers share the same symbol.
 				return false
 			}
+			if n.anc.kind == keyValueExpr && n.anc.child[0] == n && isStruct(n.anc.typ) {
+				// A field name in a struct literal.
+				return false
+			}
 			sym := n.sym
 			if !inFunc || sym == nil {
 				// In a function body, identifiers have been resolved by cfg, taking local
